@@ -329,7 +329,46 @@ Section Levels.
              cbn [app]. rewrite <- app_assoc. reflexivity.
   Qed.
 
-  Opaque list_loop struct_loop.
+  (* interpolated strings *)
+  Lemma interpolation_sound : forall ts ps rest, core ts = true -> interpolation ex ts = Ok ps rest ->
+    exists a f, wf a = true /\ ps = [PExpr (desugar a) f] /\ ts = pr a ++ pr_spec f ++ rest.
+  Proof.
+    intros ts ps rest C H. unfold interpolation in H.
+    destruct (starts_no_expression ts); [discriminate|].
+    apply bind_ok in H. destruct H as (e1 & r1 & E & H).
+    destruct (Hex ts e1 r1 C E) as (t & Wt & Dt & Et).
+    destruct r1 as [|t1 r1'].
+    - inversion H; subst. exists t, None. conj; auto.
+    - destruct t1; try (inversion H; subst; exists t, None; conj; auto; fail).
+      inversion H; subst. exists t, (Some lexeme). conj; auto.
+  Qed.
+
+  Lemma interp_loop_sound : forall n acc ts e rest, core ts = true ->
+    interp_loop ex n acc ts = Ok e rest ->
+    exists lx r, forallb (fun it : sx * option str * str => wf (fst (fst it))) r = true
+      /\ e = EInterp (filter nonempty_part (acc ++ PFixed (strip_and_escape lx) :: iparts r))
+      /\ ts = pr_isep lx r ++ rest.
+  Proof.
+    induction n; intros acc ts e rest C H; [discriminate|].
+    destruct ts as [|tok r0]; [simpl in H; discriminate|].
+    destruct tok; try (simpl in H; discriminate).
+    - (* TInterpMiddle *)
+      simpl in H. apply bind_ok in H. destruct H as (ps & r1 & E & H).
+      assert (Cr0 : core r0 = true) by (eapply core_tail; eauto).
+      destruct (interpolation_sound r0 ps r1 Cr0 E) as (a & f & Wa & -> & Et).
+      assert (Cr1 : core r1 = true).
+      { apply (core_app_r (pr a ++ pr_spec f)). rewrite <- app_assoc. rewrite <- Et. exact Cr0. }
+      destruct (IHn _ r1 e rest Cr1 H) as (lx' & r' & Wr & Ee & Tr).
+      exists lexeme, ((a, f, lx') :: r'). conj.
+      + cbn [forallb fst]. rewrite Wa, Wr. reflexivity.
+      + rewrite Ee. unfold iparts. cbn [flat_map fst snd]. rewrite <- app_assoc. reflexivity.
+      + rewrite Et, Tr. cbn [pr_isep pr_items app]. rewrite <- !app_assoc.
+        destruct r'; reflexivity.
+    - (* TInterpEnd *)
+      simpl in H. inversion H; subst. exists lexeme, []. conj; reflexivity.
+  Qed.
+
+  Opaque list_loop struct_loop interp_loop.
   Lemma primary_sound : forall ts e rest, core ts = true -> primary ex ts = Ok e rest ->
     exists t, wf t = true /\ 16 <= lvl t /\ desugar t = e /\ ts = pr t ++ rest.
   Proof.
@@ -365,6 +404,18 @@ Section Levels.
         exists (SStruct name more). conj; [exact Wm|simpl; lia|rewrite Em; reflexivity|].
         rewrite pr_struct. cbn [app]. rewrite <- app_assoc. cbn [app]. rewrite <- Tm. reflexivity.
     - inversion H; subst. exists (SStr lexeme). repeat split; auto.
+    - (* TInterpStart *)
+      apply bind_ok in H. destruct H as (ps & r1 & E & H).
+      assert (Cr : core r = true) by (eapply core_tail; eauto).
+      destruct (interpolation_sound r ps r1 Cr E) as (a & f & Wa & -> & Et).
+      assert (Cr1 : core r1 = true).
+      { apply (core_app_r (pr a ++ pr_spec f)). rewrite <- app_assoc. rewrite <- Et. exact Cr. }
+      destruct (interp_loop_sound _ _ r1 e rest Cr1 H) as (lx & r' & Wr & Ee & Tr).
+      exists (SInterp lexeme ((a, f, lx) :: r')). conj.
+      + cbn [wf forallb fst]. rewrite Wa, Wr. reflexivity.
+      + simpl; lia.
+      + rewrite Ee. reflexivity.
+      + rewrite pr_interp. cbn [pr_items app]. rewrite Et, Tr. rewrite <- !app_assoc. destruct r'; reflexivity.
   Qed.
 
   Transparent list_loop struct_loop.
